@@ -854,7 +854,7 @@ theorem buildComps_eqv (e : Entity) (comps : List (Nat × Int)) :
       · simp only [e1, e2]; rw [e3.2.1]
         split
         · simp
-        · exact ih ((h.setStore k e3.1).destroy e3.2.2)
+        · exact ih ((h.setStore k e3.1).destroy (List.Perm.append e3.2.2 (List.Perm.refl _)))
       · simp only [e1, e2]; simp
       · simp only [e1, e2]; simp
 
